@@ -26,6 +26,7 @@ def topology(gwy) -> dict:
         out[cid] = {
             "zones": {i: (z.get("class"), z.get("sensor"), tuple(sorted(z.get("actuators") or []))) for i, z in (sch.get("zones") or {}).items()},
             "dhw": {k: v for k, v in (sch.get("stored_hotwater") or {}).items()},
+            "has_dhw": getattr(tcs, "dhw", None) is not None,  # the subsystem itself (it may exist with none of its devices known)
             "app": (sch.get("system") or {}).get("appliance_control"),
             "ufh": sorted(sch.get("underfloor_heating") or {}),
         }
@@ -132,7 +133,7 @@ def _tdiff(a, b):
             return "controller-lost", f"controller {cid} is not in the reloaded gateway"
         if cid not in a:
             return "controller-gained", f"controller {cid} appeared"
-        for part in ("zones", "dhw", "app", "ufh"):
+        for part in ("zones", "dhw", "has_dhw", "app", "ufh"):
             if a[cid][part] != b[cid][part]:
                 return part, f"{cid} {part}: {str(a[cid][part])[:120]} -> {str(b[cid][part])[:120]}"
     return "other", "differs"
